@@ -19,6 +19,7 @@ def main(argv):
     ap.add_argument("--digest-of")
     ap.add_argument("--only")
     ap.add_argument("--keep", action="store_true")
+    ap.add_argument("--sigkill-child")
     args = ap.parse_args(argv)
     seed = args.seed
     if seed is None:
